@@ -33,9 +33,11 @@ READER = [("MC_reader.tla", "MC_reader.cfg", 4, "3g", 600)]
 CODEC = [("MC_codec.tla", "MC_codec.cfg", 1, "2g", 600)]
 ARENA_QUICK = [("MC_arena.tla", "MC_arena.cfg", 4, "4g", 600)]
 ARENA_THOROUGH = ARENA_QUICK + [("MC_arena.tla", "MC_arena_mid.cfg", 6, "8g", 1800), ("MC_arena.tla", "MC_arena_deep.cfg", 10, "16g", 7200)]
+LIMITS = [("Limits.tla", "MC_limits.cfg", 4, "3g", 600)]
 EXTRA = {"C10": {"quick": TIME_QUICK, "thorough": TIME_THOROUGH},
-         "C15": {"quick": READER, "thorough": READER}, "C14": {"quick": READER, "thorough": READER},
-         "C08": {"quick": READER + CODEC, "thorough": READER + CODEC}, "C12": {"quick": READER, "thorough": READER},
+         "C15": {"quick": READER, "thorough": READER}, "C14": {"quick": READER + LIMITS, "thorough": READER + LIMITS},
+         "C08": {"quick": READER + CODEC, "thorough": READER + CODEC}, "C12": {"quick": READER + LIMITS, "thorough": READER + LIMITS},
+         "C04": {"quick": LIMITS, "thorough": LIMITS},
          "C09": {"quick": CODEC, "thorough": CODEC}, "C19": {"quick": CODEC, "thorough": CODEC},
          "C20": {"quick": CODEC, "thorough": CODEC}, "C17": {"quick": ARENA_QUICK, "thorough": ARENA_THOROUGH}}
 PLAN["C01"] = {"quick": FLOW_QUICK + CODEC, "thorough": FLOW_THOROUGH + CODEC}
